@@ -111,6 +111,9 @@ def walk(m, depth=0) -> typing.Optional[str]:
 
 def targets(ctx):
     c = corpus()
+    from . import _poison
+
+    _poison_fn = lambda: _poison.apply(c)  # noqa: E731
     schema = c.schema
     agreement = ctx.extra.setdefault("reference_agreement", {})
 
@@ -580,7 +583,7 @@ def targets(ctx):
     return [
         Target("atheris_parse_campaign", fuzz_ev, cases=fuzz_cases, exhaustive=False, shard_cases=False, quick=10**9, thorough=10**9, time_thorough=3000),
         Target("truncation_all_cuts", trunc_ev, strategy=valued(), quick=100, thorough=2000, time_quick=60),
-        Target("structured_faults", fault_ev, strategy=faulted(), quick=700, thorough=8000, time_quick=60),
-        Target("inner_truncation", fault_ev, strategy=inner_cases(), quick=200, thorough=3000, time_quick=40),
-        Target("random_bytes", random_ev, strategy=rnd, quick=1200, thorough=20000, time_quick=40),
+        Target("structured_faults", fault_ev, poison=_poison_fn, strategy=faulted(), quick=700, thorough=8000, time_quick=60),
+        Target("inner_truncation", fault_ev, poison=_poison_fn, strategy=inner_cases(), quick=200, thorough=3000, time_quick=40),
+        Target("random_bytes", random_ev, poison=_poison_fn, strategy=rnd, quick=1200, thorough=20000, time_quick=40),
     ]
